@@ -131,7 +131,7 @@ def _flag_cases(ctx):
         ctx.disagreement('set_seen', {'case': sc[i]})
 
 
-STEP_TIMEOUT = 20.0      # seconds without a tagged response = the command is not answered
+STEP_TIMEOUT = 12.0      # seconds without a tagged response = the command is not answered
 
 
 async def _guard(coro, secs: float = STEP_TIMEOUT):
@@ -360,23 +360,29 @@ def run_programs(ctx, label: str, plan: list, weights: dict, first=None, final=N
     """plan: [(kind, n_programs, steps)]"""
     cases, keep = [], []
     hist: dict = {}
+    stuck = 0
     for kind, n, steps in plan:
         for i in range(n):
+            if stuck >= 6:      # every further program would only wait for the watchdog again
+                ctx.extra.setdefault('stopped_early', []).append(f'{label}/{kind} at program {i}')
+                break
             f = first(i) if callable(first) else first
             try:
                 env, init, sts, problems = run_async(_one_program(
                     ctx, kind, i, steps, weights, f, final,
                     observer(i) if callable(observer) else bool(observer), interfere), 600.0)
             except (TimeoutError, RuntimeError) as exc:
-                stuck = isinstance(exc, TimeoutError)
-                ctx.failure('answered' if stuck else 'response',
+                is_stuck = isinstance(exc, TimeoutError)
+                stuck += is_stuck
+                ctx.failure('answered' if is_stuck else 'response',
                             f'{kind}: program {label}/{i} did not finish: {exc!r}',
                             {'backend': kind, 'label': label, 'index': i, 'first': repr(f)[:2000]},
-                            {'kind': 'program_stuck' if stuck else 'writer_refused', 'backend': kind})
+                            {'kind': 'program_stuck' if is_stuck else 'writer_refused', 'backend': kind})
                 continue
             if on_program is not None:
                 on_program(kind, init, sts)
             for clause, cls, k, st in problems:
+                stuck += clause == 'answered'
                 obs = {'kind': cls, 'backend': kind}
                 all_steps = sts if st in sts else sts + [st]
                 ctx.failure(clause, f'{kind}: step {k} ({st["wire"][:60]!r}): {cls}',
@@ -595,8 +601,8 @@ def run(ctx) -> None:
     ]
     ctx.check_proofs(['RefModel/Check'])
     _flag_cases(ctx)
-    nd = ctx.scale(360, 1600)
-    nm = ctx.scale(70, 300)
+    nd = ctx.scale(300, 1600)
+    nm = ctx.scale(60, 300)
     run_async(_keyword_tables(ctx))
     for kind in ('dict', 'maildir'):
         sc = scenarios(kind)
@@ -604,7 +610,7 @@ def run(ctx) -> None:
                      first=lambda i, sc=sc: sc[i])
     run_programs(ctx, 'programs', [('dict', nd, 20), ('maildir', nm, 20)], R.C10_WEIGHTS)
     # the same with a second connection writing in between (monitor: Python reference)
-    ni = ctx.scale(50, 400)
+    ni = ctx.scale(40, 250)
     run_programs(ctx, 'interference', [('dict', ni, 16), ('maildir', ni, 16)], R.C10_WEIGHTS,
                  interfere=0.35)
 
